@@ -2,11 +2,15 @@
 # Development self-test (not a registered check): every seeded change under /verif/seeded must be reported by
 # the check of its property, and the unchanged tree must be silent. Uses one scratch worktree at a time.
 set -u
-S=/tmp/selftest-scr
+S=${SELFTEST_SCR:-/tmp/selftest-scr}
+# optional sharding: SHARD=i/n handles every n-th seed starting at i (0-based)
+SH_I=${SHARD%/*}; SH_N=${SHARD#*/}; [ -z "${SHARD:-}" ] && { SH_I=0; SH_N=1; }
+k=0
 git -C /repo worktree remove --force "$S" 2>/dev/null; rm -rf "$S"
 git -C /repo worktree add -q --detach "$S" HEAD || exit 2
 fail=0
 for d in /verif/seeded/*/; do
+  k=$((k+1)); [ $(( (k-1) % SH_N )) -eq "$SH_I" ] || continue
   id=$(basename "$d"); prop=$(python3 -c "import json;print(json.load(open('$d/meta.json'))['property'])")
   exp=$(python3 -c "import json;print(json.load(open('$d/meta.json'))['detected_by_check'])")
   git -C "$S" checkout -q -- . && git -C "$S" clean -fdq
